@@ -46,16 +46,36 @@ theorem every_listener_registers :
     listenAndServeNotRegistering = [] ∧ before ".Lock" "store-registry" serveEvents = true ∧
     before "store-registry" ".Unlock" serveEvents = true ∧ before ".Unlock" ".Serve" serveEvents = true := by decide
 
-/-- `tcp.Server.Shutdown`: close the listeners, wait for the context, close the connections — and nothing else:
-the event list of the body is pinned exactly, so there is no further call, channel receive or `Wait` that
-could block after the deadline (the model's tcp contract returns *at* the deadline whatever the handlers are
-doing, e.g. a handler still inside `net.DialTimeout`). The two helpers only lock, close and unlock. -/
-theorem tcp_shutdown_order :
-    before "close-listener" "<-p0.Done" tcpShutdownEvents = true ∧
-    before "<-p0.Done" "close-conn" tcpShutdownEvents = true := by decide
+/-- one control-flow path of `tcp.Server.Shutdown` (both branches of every `if` walked, a `return` ends its path,
+unexported helpers inlined): the listeners are closed, the connections are closed, in that order; and when the path
+waits for the context, it does so after the listeners were closed and before the connections are -/
+def tcpPathOrdered (p : List String) : Bool :=
+  before "close-listener" "close-conn" p &&
+  (!p.contains "<-p0.Done" || (before "close-listener" "<-p0.Done" p && before "<-p0.Done" "close-conn" p))
 
+/-- what may still happen once the deadline has passed: the context's own `Done()`, locking, closing — no further
+call, channel receive or `Wait` (a handler may be stuck in `net.DialTimeout` for 30 s) -/
+def afterDeadlineOk (p : List String) : Bool :=
+  (p.dropWhile (· != "<-p0.Done")).drop 1 |>.all
+    (fun e => [".Done", ".Lock", ".Unlock", "close-conn", "close-listener"].contains e)
+
+/-- `tcp.Server.Shutdown`: close the listeners, wait for the context, close the connections — on **every** path
+through the body (the nil-context path skips the wait, in whichever way the guard is written), and some path does
+wait for the context. -/
+theorem tcp_shutdown_order :
+    tcpShutdownPaths ≠ [] ∧ tcpShutdownPaths.all tcpPathOrdered = true ∧
+    tcpShutdownPaths.any (·.contains "<-p0.Done") = true := by decide
+
+/-- … and nothing that could block follows the deadline on any path (the model's tcp contract returns *at* the
+deadline whatever the handlers are doing). -/
 theorem tcp_shutdown_nothing_blocks_after_deadline :
-    tcpShutdownEvents = [".Lock", "close-listener", ".Unlock", "<-p0.Done", ".Done", ".Lock", "close-conn", ".Unlock"] := by decide
+    tcpShutdownPaths.all afterDeadlineOk = true := by decide
+
+-- the walker: closing the connections before the wait, not closing the listeners, waiting for the handlers afterwards
+example : tcpPathOrdered [".Lock", "close-listener", ".Unlock", ".Lock", "close-conn", ".Unlock", "<-p0.Done", ".Done"] = false := by decide
+example : tcpPathOrdered ["<-p0.Done", ".Done", ".Lock", "close-conn", ".Unlock"] = false := by decide
+example : afterDeadlineOk [".Lock", "close-listener", ".Unlock", "<-p0.Done", ".Done", ".Lock", "close-conn", ".Unlock", ".Wait"] = false := by decide
+example : tcpPathOrdered [".Lock", "close-listener", ".Unlock", ".Lock", "close-conn", ".Unlock"] = true := by decide
 
 /-- `gRPCServer.Shutdown` looks at its context (as shipped it did not: D22) and still stops gracefully first,
 with a hard `Stop` for the deadline. -/
